@@ -18,8 +18,11 @@ type Arena struct {
 const arenaPage = 4096
 const arenaDataPages = 2
 
-func NewArena() *Arena {
-	total := (arenaDataPages + 2) * arenaPage
+func NewArena() *Arena { return NewArenaPages(arenaDataPages) }
+
+// NewArenaPages is NewArena with a chosen number of data pages (512 words each).
+func NewArenaPages(dataPages int) *Arena {
+	total := (dataPages + 2) * arenaPage
 	mem, err := syscall.Mmap(-1, 0, total, syscall.PROT_READ|syscall.PROT_WRITE, syscall.MAP_ANON|syscall.MAP_PRIVATE)
 	if err != nil {
 		panic("arena: mmap: " + err.Error())
@@ -31,7 +34,7 @@ func NewArena() *Arena {
 		panic("arena: mprotect: " + err.Error())
 	}
 	a := &Arena{mem: mem}
-	a.Words = unsafe.Slice((*decimal.Word)(unsafe.Pointer(&mem[arenaPage])), arenaDataPages*arenaPage/8)
+	a.Words = unsafe.Slice((*decimal.Word)(unsafe.Pointer(&mem[arenaPage])), dataPages*arenaPage/8)
 	return a
 }
 
@@ -60,4 +63,31 @@ func (a *Arena) CanariesIntact(n int) bool {
 	w := a.Words
 	off := len(w)/2 - n/2
 	return w[off-1] == Canary && w[off-2] == Canary && w[off+n] == Canary && w[off+n+1] == Canary
+}
+
+// NewFarPair returns two arenas whose data regions lie exactly 4 GiB apart: a word of one and the word at the same
+// offset in the other have addresses with identical low 32 bits (a kernel that compares or computes addresses in 32
+// bits takes them for the same buffer). The span in between is reserved, never committed, and inaccessible.
+func NewFarPair(dataPages int) (lo, hi *Arena, err error) {
+	const gap = 1 << 32
+	span := (dataPages + 2) * arenaPage
+	mem, err := syscall.Mmap(-1, 0, gap+span, syscall.PROT_NONE, syscall.MAP_ANON|syscall.MAP_PRIVATE|syscall.MAP_NORESERVE)
+	if err != nil {
+		return nil, nil, err
+	}
+	mk := func(off int) (*Arena, error) {
+		if err := syscall.Mprotect(mem[off+arenaPage:off+arenaPage+dataPages*arenaPage], syscall.PROT_READ|syscall.PROT_WRITE); err != nil {
+			return nil, err
+		}
+		a := &Arena{mem: mem[off : off+span]}
+		a.Words = unsafe.Slice((*decimal.Word)(unsafe.Pointer(&mem[off+arenaPage])), dataPages*arenaPage/8)
+		return a, nil
+	}
+	if lo, err = mk(0); err != nil {
+		return nil, nil, err
+	}
+	if hi, err = mk(gap); err != nil {
+		return nil, nil, err
+	}
+	return lo, hi, nil
 }
